@@ -686,6 +686,7 @@ def scoped_cell_writers(ctx, R, keys=None):
                     c = o2.get("op") if o2["k"] == "const" else None
                 return {c.get("def"), c.get("static")} if c else set()
             writes = []
+            wbb = []
             cellkey = False
             for bb, t in b.calls(re.compile(r"LocalKey<T>::with$|LocalKey::with$")):
                 if not any(kid in names(a) for a in t["args"]):
@@ -696,15 +697,24 @@ def scoped_cell_writers(ctx, R, keys=None):
                             cellkey = True
                             if CELL_WRITE.search(t2["f"]):
                                 writes.append((t2["f"].rsplit("::", 1)[1], t2["s"]))
+                                wbb.append(bb)
             for bb, t in b.calls(re.compile(r"^std::thread::LocalKey::(set|take|replace)$")):
                 if any(kid in names(a) for a in t["args"]):
                     cellkey = True
                     writes.append((t["f"].rsplit("::", 1)[1], t["s"]))
+                    wbb.append(bb)
             if not cellkey:
                 continue
             n += 1
             installs = any(s2["r"]["k"] == "agg" and s2["r"].get("adt") in gtypes for bb, i, s2 in b.all_stmts() if i != "term")
             ok = not writes or installs
+            if writes and installs:
+                # entering a scope installs *its* value on every path - also when that value is "nothing": a scope entered without a hook must
+                # not inherit the hook of the scope around it
+                always = all(b.dominated_by_any(x, blocks=wbb) for x in b.exits())
+                ctx.inst(R, f"scoped-cell:{kid}<-{acc}:installs-on-every-path", always, writes[0][1], "the scope's own value is installed unconditionally" if always else
+                         f"`{acc}` installs the scoped thread-local `{kid}` only on some paths (only when a value is given): a scope entered with nothing keeps the enclosing scope's value - "
+                         "corruption events of a filesystem nobody observes are reported to the outer host's barrier")
             ctx.inst(R, f"scoped-cell:{kid}<-{acc}", ok, writes[0][1] if writes else b.span,
                      ("installs the value and builds the guard that restores it" if writes else "reads the scoped value") if ok else
                      f"`{acc}` writes the scoped thread-local `{kid}` ({writes[0][0]}) although it neither builds nor is the guard that manages it: the value installed "
